@@ -17,7 +17,7 @@ def run(ctx):
     with core.Scratch('c18') as root:
         for i in range(n):
             c = br.Case()
-            c.bsize = rng.choice([7, 512, 4096]); c.no_progress = False
+            c.bsize = rng.choice([7, 512, 4096]); c.no_progress = rng.random() < 0.2          # --no-progress: the block size is unbounded
             nf = rng.choice([1, 3, 6])
             c.files = [(f'f{j}', br.gen_data(rng, rng.choice([0, 1, c.bsize * rng.randint(1, 12) + rng.randrange(c.bsize)]), False)) for j in range(nf)]
             if rng.random() < 0.25 and c.bsize == 4096:
@@ -34,6 +34,11 @@ def run(ctx):
             if xfault:      # a tolerated failure (extended attributes) on one file: the requested fsync must still be issued
                 victim = rng.choice(c.files)[0]
                 c.plan.append(rng.choice([f'fail flistxattr S/{victim} 1 {scen.ERRNO["EPERM"]}', f'fail fsetxattr D/{victim} 1 {scen.ERRNO["ENOSPC"]}', f'fail fgetxattr S/{victim} 1 {scen.ERRNO["EIO"]}']))
+            svictim = None
+            if len(c.files) >= 3 and rng.random() < 0.4 and '--fsync' in c.extra:
+                # ONE destination's fsync is refused (EINVAL/ENOSYS: "this file cannot be synced"): every other file is still flushed
+                svictim = rng.choice(c.files)[0]
+                c.plan.append(f'fail fsync D/{svictim} 1 {scen.ERRNO[rng.choice(["EINVAL", "ENOSYS", "EOPNOTSUPP"])]}')
             pairs = br.setup_case(root, c)
             for src, _, _ in pairs:
                 os.setxattr(src, 'user.c18', b'v')
@@ -53,6 +58,9 @@ def run(ctx):
                 length = scen.data_bytes(data)[0]
                 syncs = [e for t, e in proj if t == 'fin:fsync']
                 writes = [e for t, e in proj if t in ('data',) or t.startswith('trunc') or t.startswith('clone')]
+                if fs and os.path.basename(dst) == svictim:
+                    ctx.count('fsync_refused_for_one_file')
+                    continue          # its own fsync was refused by the plan (logged only: finding F11 under C04); the others are judged
                 if fs:
                     # ---- the property's oracle on the implementation
                     bad = None
@@ -80,7 +88,7 @@ def run(ctx):
                                       f'trace monitor rejects the calls on {os.path.basename(dst)}', no_input=True)
             br.verify_case(ctx, root, c, pairs, r, f'case-{i}')
     ctx.cov['rule'] = ('trees of 1-7 files incl. multi-block and sparse ones x driver x workers {1,2,3,8,16} x block sizes x schedule perturbation (seeded random delays or '
-                       'priority holds with 1-4 change points, optionally every copy_file_range stalled). distinct = distinct (case, schedule seed); '
+                       'priority holds with 1-4 change points, optionally every copy_file_range stalled); --no-progress in a fifth; the fsync of one file refused in some. distinct = distinct (case, schedule seed); '
                        'non-trivial = --fsync on and at least one multi-block file')
     ctx.assumptions += ['sup orders calls by one counter ticking at every entry and exit: "A before B" means A returned before B was entered',
                         'perturbed schedules sample, they do not enumerate, the real interleavings; the ∀-schedule claim is the theorem about the model']
